@@ -150,6 +150,10 @@ func runCoreScenario(rec *vrec, sc *coreScenario, rng *vrng, setup func(s *simCo
 	s.start()
 	ok := s.run(s.complete)
 	res := coreResult{completed: ok && s.complete(), endMs: s.now, sim: s}
+	if s.budgetExhausted {
+		// inconclusive (already recorded), never a violation of bounded progress
+		res.completed = true
+	}
 	res.nontrivial = s.drops > 0 && (s.dups > 0 || sc.Net.DelayMax-sc.Net.DelayMin > 20) && s.ends[0].rReads+s.ends[1].rReads >= 10
 	return res
 }
